@@ -511,6 +511,17 @@ func runTblCase(r *rng, family string, nr, nc int, fixed ...tblOp) (c tblCase, c
 	}
 	mergedPhase := false
 	for i := 0; i < nOps; i++ {
+		if c.Grid0 != "" {
+			// (the premise of these tables, kept up over the history: cells carry no width of their own - the calls give the
+			// cells they create one, and a grid completed later would take its widths from them)
+			for ri := range t.Rows {
+				for ci := range t.Rows[ri].Cells {
+					if pr := t.Rows[ri].Cells[ci].Properties; pr != nil {
+						pr.TableCellW = nil
+					}
+				}
+			}
+		}
 		before := viewTable(t)
 		cnr := len(before.Rows)
 		cnc := 0
